@@ -1,6 +1,8 @@
 package main
 
 import (
+	"syscall"
+	"runtime"
 	"bytes"
 	"context"
 	"fmt"
@@ -36,8 +38,39 @@ type solveResult struct {
 	dur    time.Duration
 }
 
+// solverSlot: a machine-wide limit on the number of solver processes (one per
+// core), shared by every kvc process through lock files, so that several checks
+// running at the same time do not turn each other's proofs into timeouts. The
+// time spent waiting for a slot does not count against the solver's timeout.
+func solverSlot(ctx context.Context) (release func()) {
+	dir := filepath.Join(os.TempDir(), "kvc-solver-slots")
+	if os.MkdirAll(dir, 0o777) != nil {
+		return func() {}
+	}
+	n := runtime.NumCPU()
+	for {
+		for i := 0; i < n; i++ {
+			f, err := os.OpenFile(filepath.Join(dir, fmt.Sprintf("slot-%d", i)), os.O_CREATE|os.O_RDWR, 0o666)
+			if err != nil {
+				return func() {}
+			}
+			if syscall.Flock(int(f.Fd()), syscall.LOCK_EX|syscall.LOCK_NB) == nil {
+				return func() { syscall.Flock(int(f.Fd()), syscall.LOCK_UN); f.Close() }
+			}
+			f.Close()
+		}
+		select {
+		case <-ctx.Done():
+			return func() {}
+		case <-time.After(50 * time.Millisecond):
+		}
+	}
+}
+
 func runSolver(ctx context.Context, s solverSpec, file string, timeout time.Duration, seed int) solveResult {
 	args := s.cmd(file, timeout, seed)
+	release := solverSlot(ctx)
+	defer release()
 	cctx, cancel := context.WithTimeout(ctx, timeout+2*time.Second)
 	defer cancel()
 	cmd := exec.CommandContext(cctx, args[0], args[1:]...)
